@@ -26,14 +26,14 @@ Lemma parse_pcr_sim : sim eq parse_pcr parsePCR.
 Proof.
   unfold parse_pcr, parsePCR. cbv zeta. apply sim_bytes_fun. intros bs Hok Hlen.
   explode_bytes bs Hlen Hok. nth_lit. pose proof Hok as Hok'. bytes_inv Hok'.
-  unfold mk_cr, newClockReference. f_equal; bridge.
+  unfold mk_cr, newClockReference, sint. change (64 - 1) with 63. f_equal; bridge.
 Qed.
 
 Lemma parse_pts_or_dts_sim : sim eq parse_pts_or_dts parsePTSOrDTS.
 Proof.
   unfold parse_pts_or_dts, parsePTSOrDTS. cbv zeta. apply sim_bytes_fun. intros bs Hok Hlen.
   explode_bytes bs Hlen Hok. nth_lit. pose proof Hok as Hok'. bytes_inv Hok'.
-  unfold mk_cr, newClockReference. f_equal. bridge.
+  unfold mk_cr, newClockReference, sint. change (64 - 1) with 63. f_equal. bridge.
 Qed.
 
 (* ---------------- packet header ---------------- *)
